@@ -2,7 +2,7 @@
 
 Proof : coq/Properties/C14.v (induction over operation lists of the state machine model
         coq/Ms/PsbtModel.v: final_monotone, fail_untouched, idempotent, order_indep,
-        success_valid/provenance, update_consistent, one `_refuted`).
+        success_valid/provenance, update_consistent, finalize_keeps_unknown).
 Tie   : harness engine `psbt` runs histories on real multi-input PSBTs through the public
         PsbtExt API; this file turns histories + observations into coq/Tables/PsbtCasesGen.v
         and coq/Tables/PsbtCasesCheck.v replays the MODEL on the same histories inside Coq
@@ -303,7 +303,6 @@ def build_gen(data, hists):
     out.append("Definition sigflags : list (N * N) := %s." % cmap(sigflags.items()))
     out.append("Definition mall_false : bool := %s." % cbool(mall_false))
     out.append("Definition mall_true : bool := %s." % cbool(mall_true))
-    out.append("Definition keep_unknown : bool := %s." % cbool(bool(mp.get("keeps_unknown", False))))
     out.append("")
     out += case_lines
     ids = [h["id"] for h in hists]
